@@ -232,6 +232,50 @@ fn perturb(v: &RVal, p: &Pert) -> (RVal, &'static str) {
 }
 
 fn triple(depth: u32) -> BoxedStrategy<Triple> {
+    prop_oneof![
+        5 => triple_near(depth),
+        1 => triple_small_universe(),
+    ]
+    .boxed()
+}
+
+/// Three records over a small universe of tag names and values (ids @p1..@p3, a handful of tags): independent
+/// draws collide on names and values all the time, so orders that look at *particular* tags (an `id`, a `dis`)
+/// before the general rule are exercised on every combination of "has it / has it not / differs".
+/// (Seeded change C12-d: Dict::cmp by `id` Ref first is not transitive.)
+fn small_record() -> BoxedStrategy<RVal> {
+    let val = prop_oneof![
+        3 => Just(RVal::Marker),
+        2 => prop::sample::select(vec!["p1", "p2", "p3"]).prop_map(|i| RVal::Ref(i.to_string(), None)),
+        1 => (prop::sample::select(vec!["p1", "p2"]), prop::sample::select(vec!["P one", "x"])).prop_map(|(i, d)| RVal::Ref(i.to_string(), Some(d.to_string()))),
+        2 => prop::sample::select(vec!["x", "y", ""]).prop_map(|s| RVal::Str(s.to_string())),
+        2 => prop::sample::select(vec![0.0f64, 1.0, 2.0]).prop_map(RVal::num),
+        1 => Just(RVal::Num(1f64.to_bits(), Some(vec!["meter".into(), "m".into()]))),
+        1 => Just(RVal::Bool(true)),
+    ];
+    let name = prop::sample::select(vec!["id", "dis", "equip", "navName", "a", "site", "siteRef", "def", "z"]).prop_map(String::from);
+    let dict = prop::collection::btree_map(name, val, 0..5);
+    prop_oneof![
+        6 => dict.clone().prop_map(RVal::Dict),
+        1 => prop::collection::vec(dict.clone().prop_map(RVal::Dict), 0..3).prop_map(RVal::List),
+        1 => (dict.clone(), dict).prop_map(|(mut a, b)| {
+            a.insert("sub".into(), RVal::Dict(b));
+            RVal::Dict(a)
+        }),
+    ]
+    .boxed()
+}
+
+fn triple_small_universe() -> BoxedStrategy<Triple> {
+    bx((small_record(), small_record(), small_record()).prop_map(|(a, b, c)| Triple {
+        a,
+        b,
+        c,
+        how: vec!["small-universe".to_string(), "small-universe".to_string()],
+    }))
+}
+
+fn triple_near(depth: u32) -> BoxedStrategy<Triple> {
     let cfg = GenCfg {
         depth,
         wf: false,
@@ -522,7 +566,7 @@ pub fn check_triple_opt(t: &Triple, rec: &mut Rec, strict_std_sort: bool) -> Ver
 }
 
 pub fn run(ctx: &mut Ctx) {
-    ctx.rule("generated: triples (a, b, c) of constructible values without NaN where b and c are near-collisions (one field of one node perturbed: sign of zero, unit dropped/swapped, Ref dis, dict key/value, list prefix, same instant in another zone, same payload under another kind) or independent; laws: reflexive/symmetric/transitive ==, clone, == implies equal hashes (two hashers), cmp antisymmetric/transitive, cmp==Equal iff ==, partial_cmp agrees with cmp when Some, and HashSet/BTreeSet/sort+dedup agree with a quadratic ==-class count; also on the typed values; non-trivial: a near-collision or equal-but-not-identical pair; distinct by Debug of the triple");
+    ctx.rule("generated: triples (a, b, c) of constructible values without NaN where b and c are near-collisions (one field of one node perturbed: sign of zero, unit dropped/swapped, Ref dis, dict key/value, list prefix, same instant in another zone, same payload under another kind) or independent, and (1 in 6) three records drawn from a small universe of tag names (id, dis, equip, navName, ...) and values (@p1..@p3, markers, a few strings and numbers) so that the same tags meet in every has/has-not/differs combination; laws: reflexive/symmetric/transitive ==, clone, == implies equal hashes (two hashers), cmp antisymmetric/transitive, cmp==Equal iff ==, partial_cmp agrees with cmp when Some, and HashSet/BTreeSet/sort+dedup agree with a quadratic ==-class count; also on the typed values; non-trivial: a near-collision or equal-but-not-identical pair; distinct by Debug of the triple");
     ctx.assume("NaN is excluded (the property quantifies over values without NaN)");
     let total = ctx.tier.pick(160_000, 4_800_000);
     let depth = ctx.tier.pick(2, 3) as u32;
